@@ -57,6 +57,7 @@ type qAtom struct {
 	Bits int    `json:"bits"`
 	Name string `json:"name"`
 	Tok  string `json:"tok"`
+	Conv string `json:"conv"` // converter selector of a payload filter ("" = none)
 }
 
 type qAst struct {
@@ -203,6 +204,9 @@ func qAtomText(a *qAtom) string {
 		typ, sub, _ := strings.Cut(a.Name, "/")
 		return typ + ":" + sub
 	case "cdata", "sdata", "data":
+		if a.Conv != "" {
+			return fmt.Sprintf(`%s.%s:"%s"`, a.K, a.Conv, a.Tok)
+		}
 		return fmt.Sprintf(`%s:"%s"`, a.K, a.Tok)
 	case "ftime", "ltime":
 		return tm(a.K)
@@ -313,14 +317,14 @@ func qNormalForm(q *query.Query) (map[string]any, string) {
 			case *query.DataCondition:
 				els := []qCond{}
 				for _, e := range cc.Elements {
-					if e.SubQuery != "" || len(e.Variables) != 0 || e.ConverterName != "" {
+					if e.SubQuery != "" || len(e.Variables) != 0 {
 						return nil, "unsupported data element"
 					}
 					d := "c"
 					if e.Flags&query.DataRequirementSequenceFlagsDirection == query.DataRequirementSequenceFlagsDirectionServerToClient {
 						d = "s"
 					}
-					els = append(els, qCond{"d": d, "tok": e.Regex})
+					els = append(els, qCond{"d": d, "tok": e.Regex, "conv": e.ConverterName})
 				}
 				conj = append(conj, qCond{"kind": "data", "els": els, "inv": cc.Inverted})
 			case *query.TimeCondition:
@@ -498,7 +502,12 @@ func TestVerifQuery(t *testing.T) {
 				row["unsup"] = unsup
 			}
 			runs := []any{}
+			// (filters with a converter selector are only normalised: a search would need the converter processes)
+			convsel := strings.Contains(text, "data.a:") || strings.Contains(text, "data.b:")
 			for li, lay := range layouts {
+				if convsel {
+					break
+				}
 				for ri, run := range inp.Runs {
 					// rotate the runs over the cases so that every case sees a few, every run many cases
 					if (ci+ri+li)%3 != 0 && !(run.Limit == 0 && len(run.Sort) == 1 && ri == 0) {
